@@ -17,7 +17,14 @@
              invalidating the sibling sources (zeromq.py:812-813 returns False even when msg_id > min_recv_id)
      "C01b"  min_recv_id is a local of recv(); Filter.loop_once calls recv() in 100 ms slices, so an id adopted in one
              slice is forgotten by the next while the adopted set stays buffered (zeromq.py:743)
-   With Defects = {} the specification is the intended design. *)
+   With Defects = {} the specification is the intended design.
+
+   DESIGN MUTATIONS.  The same constant also switches on named *design mutations* (D(x) below): realistic wrong designs
+   (the "must catch" lists of DESIGN.md section 5).  They are never part of a conformance run; TLC is asked for the
+   shortest behaviour on which a mutated design violates a property, and that behaviour is replayed as a *schedule* on
+   the real code under the property observers: the unchanged code passes, an implementation that has the bug fails.
+     "no_inval" "partial_ok" "no_old_recv" "le_old" "no_old_send" "no_clear_req" "eph_in_dosend" "eph_ffwd"
+     "no_rerequest" "bal_all_pubs" "no_required" "prefetch_first_hop" "no_unregister" "id_not_carried" "hello_counts" *)
 EXTENDS Integers, Sequences, FiniteSets, TLC
 
 CONSTANTS
@@ -38,8 +45,10 @@ CONSTANTS
   MaxFaults,   \* bound on Kill / Stall / Drop actions in a behaviour
   FaultKinds,  \* subset of {"kill", "stall", "drop"}
   Victims,     \* filters that may be killed / stalled
+  CheckC03,    \* evaluate C03 (meaningful only without faults, with the handshake on and required outputs declared)
   TopicOrder   \* sequence of all topic names: the dict order in which a frame set is published
 
+D(x)    == x \in Defects
 HTopic  == "_filter"                    \* hidden topic added by MQ when outputs_filter is on (mq.py:176)
 NoPay   == <<-1, -1, -1>>
 NoE     == <<-9, NoPay, -9>>            \* "None" entry of a recvd map: <<mid, pay, publisher incarnation>>
@@ -60,6 +69,25 @@ SyncSrcs(f) == {i \in 1..NSrc(f) : Srcs[f][i].eph = 0}
 Explicit(c) == ~Src(c).all /\ ~Src(c).star
 SubTopics(c) == {p[1] : p \in Src(c).tmap}                      \* explicitly subscribed source topics
 MapTopic(c, t) == IF \E p \in Src(c).tmap : p[1] = t THEN (CHOOSE p \in Src(c).tmap : p[1] = t)[2] ELSE t
+
+(* process() as a function (used by the Proc action and by the C03 reference) *)
+OTopics(f, q) == Beh[f].tseq[(q % Len(Beh[f].tseq)) + 1]
+Via(f, p) == IF p = NoPay THEN NoPay ELSE <<p[1], p[2], p[3] * 8 + FIdx[f]>>
+Ren(f, t) == IF \E p \in Beh[f].ren : p[1] = t THEN (CHOOSE p \in Beh[f].ren : p[1] = t)[2] ELSE t
+
+\* topic -> pay as process() sees it: entries merged through each source's topic map
+Seen(f, data) ==
+  LET keys == {MapTopic(<<f, x[1]>>, x[2]) : x \in Dom(data)}
+  IN [t \in keys |-> data[CHOOSE x \in Dom(data) : MapTopic(<<f, x[1]>>, x[2]) = t][2]]
+KeyQ(seen) == LET qs == {seen[t][2] : t \in {u \in Dom(seen) : seen[u] # NoPay}}
+              IN IF qs = {} THEN -1 ELSE CHOOSE q \in qs : \A r \in qs : q <= r
+
+\* the process() function of filter f on the topic -> pay map it is handed: None (skip / sink) or the output map
+ProcFn(f, seen) ==
+  LET outT == {t \in Dom(seen) : ~Hidden(t)}
+  IN [none   |-> NOut[f] = 0 \/ KeyQ(seen) \in Beh[f].skip,
+      frames |-> [t \in {Ren(f, u) : u \in outT} |-> Via(f, seen[CHOOSE u \in outT : Ren(f, u) = t])]]
+
 
 VARIABLES
   pc,        \* [Filters -> control point]
@@ -199,8 +227,9 @@ ReqConn(f, srcs, q) ==    \* effect of zmq.Again on sender.conn
 
 Got(s) == IF ~s.some THEN "none"
           ELSE IF \A t \in Dom(s.e) : s.e[t] # NoE THEN "all"
+          ELSE IF D("partial_ok") /\ \E t \in Dom(s.e) : s.e[t] # NoE THEN "all"
           ELSE IF \A t \in Dom(s.e) : s.e[t] = NoE THEN "none" ELSE "some"
-GotAll(s) == s.some /\ \A t \in Dom(s.e) : s.e[t] # NoE
+GotAll(s) == Got(s) = "all"
 
 \* init_recvd (zeromq.py:526, 565): subscribe-all excludes hidden topics, '*' includes everything
 InitFrom(c, m, ent) ==
@@ -226,7 +255,7 @@ ProcMsg(f, i, m, st) ==
          LET s2 == IF Explicit(c) /\ s.some /\ (Dom(s.e) \ m.topics) # {}
                       /\ (~eph \/ (Dom(s.e) \cap m.topics) # {})
                    THEN [s EXCEPT !.e = [t \in (Dom(s.e) \cap m.topics) |-> s.e[t]]] ELSE s
-         IN IF GotAll(s2) THEN [s2 EXCEPT !.reg = FALSE] ELSE s2
+         IN IF GotAll(s2) /\ ~D("no_unregister") THEN [s2 EXCEPT !.reg = FALSE] ELSE s2
       \* invalidate the other synchronized sources (zeromq.py:839-845) / lock them out when balancing (849-855)
       Others(s, inval) ==
          [j \in 1..Len(st.srcs) |->
@@ -242,7 +271,8 @@ ProcMsg(f, i, m, st) ==
                             srcs |-> [srcs1 EXCEPT ![i] = [s1 EXCEPT !.emin = 0, !.conn = FALSE]]]
        [] m.k \in {"hello", "oob"} -> [min |-> st.min, bal |-> st.bal, srcs |-> srcs1]
        [] OTHER ->
-          IF m.mid < minU THEN [min |-> st.min, bal |-> bal1, srcs |-> srcs1]    \* older: discard (806-810)
+          IF (m.mid < minU /\ ~D("no_old_recv")) \/ (D("le_old") /\ m.mid <= minU /\ s1.some)
+          THEN [min |-> st.min, bal |-> bal1, srcs |-> srcs1]                    \* older: discard (806-810)
           ELSE IF ~s1.some                                                       \* recvd is None (812-813)
                THEN Done([s1 EXCEPT !.some = TRUE, !.e = InitFrom(c, m, ent)],
                          "C01a" \notin Defects /\ m.mid > minU /\ ~eph)
@@ -250,7 +280,7 @@ ProcMsg(f, i, m, st) ==
                THEN Done(IF m.topic # "" /\ m.k = "data"
                          THEN [s1 EXCEPT !.e = [t \in Dom(s1.e) \cup {m.topic} |-> IF t = m.topic THEN ent ELSE s1.e[t]]]
                          ELSE s1, FALSE)
-          ELSE Done([s1 EXCEPT !.some = TRUE, !.e = NewFrom(c, m, ent)], ~eph)   \* newer (819-822)
+          ELSE Done([s1 EXCEPT !.some = TRUE, !.e = NewFrom(c, m, ent)], ~eph /\ ~D("no_inval"))   \* newer (819-822)
 
 \* one message from every ready registered source, last registered first (socks.pop(), zeromq.py:753); in balanced
 \* mode a data message forces a re-poll (socks = None, zeromq.py:855)
@@ -326,12 +356,40 @@ Aged(cl) == IF ConnTicks = 0 THEN cl     \* ConnTicks = 0: connections never tim
 RTimeout(f) ==
   /\ pc[f] = "r_wait"
   /\ Ready(f) = {}
-  /\ reqq' = Request(f, rmin[f] - 1, rsrc[f], reqq)
+  /\ reqq' = IF D("no_rerequest") THEN reqq ELSE Request(f, rmin[f] - 1, rsrc[f], reqq)
   /\ rsrc' = [rsrc EXCEPT ![f] = ReqConn(f, rsrc[f], reqq)]
   /\ clients' = [clients EXCEPT ![f] = Aged(@)]
   /\ pc' = [pc EXCEPT ![f] = "r_enter"]
   /\ lbl' = <<"timeout", f, 0>>
   /\ UNCHANGED <<minSend, sl, prevId, rmin, rbal, mq, oseq, pubq, subq, pullq, linkUp, inc, stalled, nfaults, gvars>>
+
+(* ---- C03: what every filter must see = functional composition of the upstream process() functions.
+   Message ids are carried from input to output (MQ.send_state), so the frames of different sources pair up by id.
+   OutById(g): id -> topic -> pay published by g in a fault-free run; InById(f): id -> topic -> pay handed to f. *)
+RECURSIVE OutById(_), InById(_)
+SeenFrom(f, i, ts) ==      \* what source i contributes to process()'s map from the published map ts
+  LET sub == IF Src(<<f, i>>).star THEN Dom(ts) ELSE IF Src(<<f, i>>).all THEN {t \in Dom(ts) : ~Hidden(t)}
+             ELSE Dom(ts) \cap SubTopics(<<f, i>>)
+  IN [t \in {MapTopic(<<f, i>>, u) : u \in sub} |-> ts[CHOOSE u \in sub : MapTopic(<<f, i>>, u) = t]]
+InById(f) ==
+  LET sy  == SyncSrcs(f)
+      ids == {n \in 0..MaxSeq : \A i \in sy : n \in Dom(OutById(Srcs[f][i].pub))}
+      Merge(n) == LET parts == [i \in sy |-> SeenFrom(f, i, OutById(Srcs[f][i].pub)[n])]
+                      keys  == UNION {Dom(parts[i]) : i \in sy}
+                  IN [t \in keys |-> parts[CHOOSE i \in sy : t \in Dom(parts[i])][t]]
+  IN [n \in ids |-> Merge(n)]
+OutById(g) ==
+  IF IsOrigin(g)
+  THEN [n \in 0..MaxSeq |-> LET fr == [t \in OTopics(g, n) |-> <<FIdx[g], n, 0>>]
+                            IN IF Beh[g].hid THEN fr @@ [t \in {HTopic} |-> NoPay] ELSE fr]
+  ELSE LET inb == InById(g)
+           ok  == {n \in Dom(inb) : ~ProcFn(g, inb[n]).none}
+       IN [n \in ok |-> LET fr == ProcFn(g, inb[n]).frames
+                        IN IF Beh[g].hid THEN fr @@ [t \in {HTopic} |-> NoPay] ELSE fr]
+\* the n-th (1-based) expected input of f, in id order
+ExpIds(f) == Dom(InById(f))
+NthId(S, n) == CHOOSE x \in S : Cardinality({y \in S : y < x}) = n - 1
+C03Applies(f) == SyncSrcs(f) = 1..NSrc(f) /\ NSrc(f) > 0 /\ ~SrcBal[f]
 
 (* ---- observation of a delivery: the formulas of C01 / C02 / C05(iv) / C07 evaluated on the set being returned ---- *)
 PLog(g, i, mid) == {r \in plog[g] : r.i = i /\ r.mid = mid}
@@ -375,17 +433,22 @@ RFinal(f, phase, back) ==
                          inc, stalled, nfaults, gvars>>
      ELSE LET srcs == rsrc[f]
               data == [x \in Pairs(srcs) |-> srcs[x[1]].e[x[2]]]
-              pre  == ~Beh[f].lowlat /\ rbal[f] # 1                  \* prefetch (zeromq.py:916-917)
+              pre  == ~Beh[f].lowlat /\ (rbal[f] # 1 \/ D("prefetch_first_hop"))                  \* prefetch (zeromq.py:916-917)
               dup  == \E x, y \in Pairs(srcs) : x # y /\ MapTopic(<<f, x[1]>>, x[2]) = MapTopic(<<f, y[1]>>, y[2])
           IN /\ reqq' = IF pre THEN Request(f, rmin[f], srcs, reqq) ELSE reqq
              /\ prevId' = [prevId EXCEPT ![f] = rmin[f]]
              /\ rsrc' = [rsrc EXCEPT ![f] = [i \in 1..NSrc(f) |->
                             [InitSrc(<<f, i>>, (IF pre THEN ReqConn(f, srcs, reqq) ELSE srcs)[i].conn)
                                EXCEPT !.emin = srcs[i].emin]]]
-             /\ mq' = [mq EXCEPT ![f].ss = rmin[f], ![f].sbal = rbal[f], ![f].rs = NoneSt,
+             /\ mq' = [mq EXCEPT ![f].ss = IF D("id_not_carried") THEN NoneSt ELSE rmin[f], ![f].sbal = rbal[f], ![f].rs = NoneSt,
                                  ![f].inp = data, ![f].has = TRUE]
              /\ pc' = [pc EXCEPT ![f] = IF dup THEN "crashed" ELSE "proc"]        \* duplicate topic: RuntimeError (928)
-             /\ bad' = bad \cup DeliveryFaults(f, srcs, rmin[f])
+             /\ bad' = bad \cup DeliveryFaults(f, srcs, rmin[f]) \cup
+                        (IF CheckC03 /\ C03Applies(f) /\
+                            ~(/\ ndeliv[f] < Cardinality(ExpIds(f))
+                              /\ LET n == NthId(ExpIds(f), ndeliv[f] + 1)
+                                 IN rmin[f] = n /\ Seen(f, data) = InById(f)[n])
+                         THEN {"C03_Prefix"} ELSE {})
              /\ dlast' = [dlast EXCEPT ![f] = rmin[f]]
              /\ ndeliv' = [ndeliv EXCEPT ![f] = @ + 1]
              /\ lastD' = [lastD EXCEPT ![f] = data]
@@ -395,28 +458,14 @@ RFinal(f, phase, back) ==
 
 -----------------------------------------------------------------------------
 (* Filter.process_frames + MQ.send entry (filter.py:838-883, mq.py:141-198) *)
-Via(f, p) == IF p = NoPay THEN NoPay ELSE <<p[1], p[2], p[3] * 8 + FIdx[f]>>
-Ren(f, t) == IF \E p \in Beh[f].ren : p[1] = t THEN (CHOOSE p \in Beh[f].ren : p[1] = t)[2] ELSE t
-
-\* topic -> pay as process() sees it: entries merged through each source's topic map
-Seen(f, data) ==
-  LET keys == {MapTopic(<<f, x[1]>>, x[2]) : x \in Dom(data)}
-  IN [t \in keys |-> data[CHOOSE x \in Dom(data) : MapTopic(<<f, x[1]>>, x[2]) = t][2]]
-KeyQ(seen) == LET qs == {seen[t][2] : t \in {u \in Dom(seen) : seen[u] # NoPay}}
-              IN IF qs = {} THEN -1 ELSE CHOOSE q \in qs : \A r \in qs : q <= r
-
 Proc(f) ==
   /\ pc[f] = "proc"
-  /\ LET seen == Seen(f, mq[f].inp)
-         skip == KeyQ(seen) \in Beh[f].skip
-         outT == {t \in Dom(seen) : ~Hidden(t)}
-     IN IF NOut[f] = 0 \/ skip
+  /\ LET r == ProcFn(f, Seen(f, mq[f].inp))
+     IN IF r.none
         THEN \* sink, or process() returned None: MQ.send(None) returns True at once (mq.py:183-187)
              /\ mq' = [mq EXCEPT ![f].has = FALSE, ![f].inp = EmptyF, ![f].frames = EmptyF]
              /\ pc' = [pc EXCEPT ![f] = IF Beh[f].slow THEN "work_r" ELSE "r_enter"]
-        ELSE /\ mq' = [mq EXCEPT ![f].inp = EmptyF,
-                                 ![f].frames = [t \in {Ren(f, u) : u \in outT} |->
-                                                  Via(f, seen[CHOOSE u \in outT : Ren(f, u) = t])]]
+        ELSE /\ mq' = [mq EXCEPT ![f].inp = EmptyF, ![f].frames = r.frames]
              /\ pc' = [pc EXCEPT ![f] = IF Beh[f].slow THEN "work_s" ELSE "s_enter"]
   /\ lbl' = <<"int", f, 0>>
   /\ UNCHANGED <<minSend, clients, sl, prevId, rmin, rbal, rsrc, oseq, pubq, subq, reqq, pullq, linkUp, inc, stalled,
@@ -431,7 +480,6 @@ WorkDone(f) ==
   /\ UNCHANGED <<minSend, sl, prevId, rmin, rbal, rsrc, mq, oseq, pubq, subq, reqq, pullq, linkUp, inc, stalled,
                  nfaults, gvars>>
 
-OTopics(f, q) == Beh[f].tseq[(q % Len(Beh[f].tseq)) + 1]
 Gen(f) ==
   /\ pc[f] = "gen"
   /\ oseq[f] <= MaxSeq
@@ -453,7 +501,7 @@ AfterSend(f) == IF IsOrigin(f) THEN "gen" ELSE "r_enter"
 SEnter(f) ==
   /\ pc[f] = "s_enter"
   /\ LET mid == IF mq[f].ss = NoneSt THEN minSend[f] ELSE mq[f].ss
-     IN IF mq[f].ss # NoneSt /\ mq[f].ss < minSend[f]
+     IN IF mq[f].ss # NoneSt /\ mq[f].ss < minSend[f] /\ ~D("no_old_send")
         THEN \* discard: returns ZMQStateRecv(min_send_id) at once (309-310); MQ.send stores it (mq.py:192-193)
              /\ mq' = [mq EXCEPT ![f].rs = minSend[f], ![f].ss = NoneSt, ![f].has = FALSE, ![f].frames = EmptyF]
              /\ pc' = [pc EXCEPT ![f] = AfterSend(f)]
@@ -483,9 +531,9 @@ OutStat(cl, o) ==      \* (output do_send, # requested, max prev_id) of bound ou
                                           \A n \in ns : cl[n].prev <= p]
 Eligible(g, cl) == {o \in 1..NOut[g] : OutStat(cl, o).has /\ OutStat(cl, o).ok /\ OutStat(cl, o).nreq > 0}
 DoSend(g, cl) ==
-  /\ Required[g] \subseteq {cl[n].c[1] : n \in 1..Len(cl)}
+  /\ D("no_required") \/ Required[g] \subseteq {cl[n].c[1] : n \in 1..Len(cl)}
   /\ IF OutBal[g] THEN Eligible(g, cl) # {}
-     ELSE \A n \in 1..Len(cl) : cl[n].req \/ cl[n].eph > 0
+     ELSE \A n \in 1..Len(cl) : cl[n].req \/ (cl[n].eph > 0 /\ ~D("eph_in_dosend"))
 
 \* first output in dict order of `outputs` (order of first client per pull) with the smallest max prev_id (443-448)
 FirstPos(cl, o) == CHOOSE n \in 1..Len(cl) : OutOf(cl[n].c) = o /\ \A k \in 1..(n - 1) : OutOf(cl[k].c) # o
@@ -517,7 +565,7 @@ SendMaybe(f, lc, cl, waitpc) ==
               frames == IF Beh[f].hid THEN frames0 @@ [t \in {HTopic} |-> NoPay] ELSE frames0
               ts     == Dom(frames)
               ordT   == SetSeq(ts)
-              out    == IF OutBal[f] THEN {ChooseOut(f, cl)} ELSE AllOuts(f)
+              out    == IF OutBal[f] /\ ~D("bal_all_pubs") THEN {ChooseOut(f, cl)} ELSE AllOuts(f)
               balv   == IF OutBal[f] THEN 1 ELSE IF lc.bal > 0 THEN (IF lc.bal >= 3 THEN 3 ELSE lc.bal + 1) ELSE 0
               data   == [n \in 1..Len(ordT) |-> [k |-> "data", mid |-> lc.mid, topic |-> ordT[n], topics |-> ts,
                                                  pay |-> frames[ordT[n]], bal |-> balv, inc |-> inc[f]]]
@@ -527,7 +575,7 @@ SendMaybe(f, lc, cl, waitpc) ==
               pq1    == PubAll(f, AllOuts(f), hello, pubq)
               incl   == {n \in 1..Len(cl) : OutOf(cl[n].c) \in out}
           IN /\ pubq' = PubAll(f, out, data \o tmsg, pq1)
-             /\ clients' = [clients EXCEPT ![f] = [n \in 1..Len(cl) |-> IF n \in incl THEN [cl[n] EXCEPT !.req = FALSE] ELSE cl[n]]]
+             /\ clients' = [clients EXCEPT ![f] = [n \in 1..Len(cl) |-> IF n \in incl /\ ~D("no_clear_req") THEN [cl[n] EXCEPT !.req = FALSE] ELSE cl[n]]]
              /\ minSend' = [minSend EXCEPT ![f] = lc.mid + 1]
              /\ sl' = [sl EXCEPT ![f] = [lc EXCEPT !.doHello = FALSE]]
              /\ mq' = [mq EXCEPT ![f].rs = lc.mid + 1, ![f].ss = NoneSt, ![f].has = FALSE, ![f].frames = EmptyF]
@@ -565,13 +613,13 @@ SPollMsg(f, phase) ==
                   ELSE /\ pc' = [pc EXCEPT ![f] = drainpc]
                        /\ UNCHANGED <<clients, sl, minSend, mq, pubq, oseq, plog, ahead, bad>>
              [] OTHER ->
-                  IF ~HasClient(cl, c, m.inc) /\ Handshake /\ m.new
+                  IF ~HasClient(cl, c, m.inc) /\ Handshake /\ m.new /\ ~D("hello_counts")
                   THEN \* 362-371: soak up the new-connection request, poll again with timeout 0
                        /\ sl' = [sl EXCEPT ![f].doHello = TRUE]
                        /\ pc' = [pc EXCEPT ![f] = IF waitph THEN "s_wait_h" ELSE "s_drain_h"]
                        /\ UNCHANGED <<clients, minSend, mq, pubq, oseq, plog, ahead, bad>>
                   ELSE LET cl1 == PutClient(cl, [c |-> c, inc |-> m.inc, req |-> TRUE, eph |-> m.eph, prev |-> m.mid, age |-> 0])
-                       IN IF m.mid >= lc.mid /\ m.eph = 0
+                       IN IF m.mid >= lc.mid /\ (m.eph = 0 \/ D("eph_ffwd"))
                           THEN \* 379-385: downstream asks for a newer id: fast-forward, send() returns as if sent
                                /\ clients' = [clients EXCEPT ![f] = cl1]
                                /\ minSend' = [minSend EXCEPT ![f] = m.mid + 1]
@@ -629,7 +677,11 @@ Kill(f, keep) ==
   /\ mq' = [mq EXCEPT ![f] = InitMQ]
   /\ pubq' = [c \in Conns |-> IF c[1] = f \/ (PubOf(c) = f /\ ~keep) THEN <<>> ELSE pubq[c]]
   /\ subq' = [c \in Conns |-> IF c[1] = f THEN <<>> ELSE subq[c]]
-  /\ reqq' = [c \in Conns |-> IF c[1] = f /\ ~keep THEN <<>> ELSE reqq[c]]
+  /\ reqq' = [c \in Conns |->
+                IF c[1] = f /\ (~keep \/ ~Alive(PubOf(c))) THEN <<>>
+                ELSE IF PubOf(c) = f          \* the pipe of a live consumer keeps its requests; older ones die with f
+                     THEN SelectSeq(reqq[c], LAMBDA m : Alive(c[1]) /\ m.inc = inc[c[1]])
+                ELSE reqq[c]]
   /\ pullq' = [pullq EXCEPT ![f] = [o \in 1..NOut[f] |-> <<>>]]
   /\ linkUp' = [c \in Conns |-> IF c[1] = f \/ PubOf(c) = f THEN FALSE ELSE linkUp[c]]
   /\ stalled' = stalled \ {f}
@@ -720,6 +772,9 @@ C01 == bad \cap {"C01_SameId", "C01_ExactTopics", "C01_SameOrigin"} = {}
 C02 == bad \cap {"C02_Order", "C02_Hidden"} = {}
 C05 == bad \cap {"C05_EphComplete", "C05_GuardSync"} = {}
 C07 == bad \cap {"C07_Rejoin", "C07_OneBranch"} = {}
+C03 == "C03_Prefix" \notin bad
+C03_AllDelivered == \A f \in Filters : C03Applies(f) => ndeliv[f] = Cardinality(ExpIds(f))
+C03_Complete == <>[]C03_AllDelivered
 C04_Bounded == \A c \in Conns : ahead[c] <= 9
 
 \* no filter dies of a RuntimeError raised by the protocol code itself
